@@ -68,7 +68,7 @@ Definition split_host_port (hp : str) : option (str * str) :=
 
 (* net.JoinHostPort *)
 Definition join_host_port (h p : str) : str :=
-  if has_byte 58 h || has_byte 37 h then [91] ++ h ++ [93; 58] ++ p else h ++ [58] ++ p.
+  if has_byte 58 h then [91] ++ h ++ [93; 58] ++ p else h ++ [58] ++ p.
 
 (* net/url: splitHostPort used by URL.Hostname() and URL.Port() *)
 Definition valid_optional_port (s : str) : bool :=
